@@ -221,6 +221,28 @@ func (w *world) check() {
 // keeper, dogfood hooks and dogfood EndBlock; the registry invariant is asserted after every step.
 func VerifC07KeyRegistry() {
 	w := setup()
+	// initial state: empty registry, or one / two operators already in the validator set
+	// (built with the same operations, so it is a reachable state)
+	init := verifrt.Choice("initial_validators", 3)
+	for o := 0; o < init; o++ {
+		_, err := w.ms.OptIntoAVS(sdk.WrapSDKContext(w.f.Ctx), &operatortypes.OptIntoAVSReq{FromAddress: verifenv.OperatorBech[o], AvsAddress: w.avs, PublicKeyJSON: keyJSON(o)})
+		verifrt.Assume(err == nil)
+		w.f.PutUSDValue(w.avs, o, operatortypes.OperatorOptedUSDValue{SelfUSDValue: sdkmath.LegacyNewDec(10), TotalUSDValue: sdkmath.LegacyNewDec(10), ActiveUSDValue: sdkmath.LegacyNewDec(int64(10 + o))})
+		w.current[o] = o
+	}
+	if init > 0 {
+		w.f.Dogfood.EpochsHooks().AfterEpochEnd(w.f.Ctx, verifenv.EpochDay, w.epoch)
+		w.f.Dogfood.EndBlock(w.f.Ctx)
+		for j := range w.keys {
+			w.wasVal[j] = w.inValSet(j)
+		}
+		w.epoch++
+		w.putEpoch()
+		for o := 0; o < init; o++ {
+			verifrt.Assume(w.wasVal[o])
+		}
+		w.check()
+	}
 	steps := verifrt.Param("steps", 3)
 	for t := 0; t < steps; t++ {
 		w.step(t)
